@@ -210,7 +210,7 @@ def replay(w, ctx):
 def floors(m, tier):
     out = []
     c, cov = m['counters'], m['cover']
-    need = 5000 if tier == 'quick' else 100000
+    need = 2500 if tier == 'quick' else 60000
     if c.get('orders_judged', 0) < need:
         out.append('only %d parser orders judged' % c.get('orders_judged', 0))
     for k in ('invalid_range', 'invalid_duplicate', 'invalid_stab_without_twopl', 'flag_order_differs_from_position_order',
